@@ -13,6 +13,7 @@ import Poulpy.Lemmas.ValBridge
 import Poulpy.Lemmas.AccAdd
 import Poulpy.Lemmas.EpTotal
 import Poulpy.Lemmas.HeadRoom
+import Poulpy.Lemmas.TensorCols
 import Poulpy.Props.C02
 import Poulpy.Props.C07
 
@@ -220,7 +221,7 @@ example : w64 (w64 (w64 (7 - 3) - 4) + 9) = w64 (7 + w64 (w64 (w64 (-3) - 4) + 9
 property's quantifier): `glwe_tensor_square_apply(a)` and `glwe_tensor_apply(a, a)` return the same tensor, bit
 for bit, for every operand, precision, offset, radix pair and accumulator type.  (Two different loop orders and
 `(p − dᵢ) − dⱼ` vs `(−dᵢ − dⱼ) + p` in wrapping arithmetic.) -/
-theorem tensorSquare_eq_tensorApply (big : Bool) (n rb rs off b : Nat) (a : List Col) (k : Nat) (res0 : List Col)
+theorem tensorSquare_eq_tensorApply_ranks12 (big : Bool) (n rb rs off b : Nat) (a : List Col) (k : Nat) (res0 : List Col)
     (ha : a.length = 2 ∨ a.length = 3) (hr : res0.length = a.length * (a.length + 1) / 2) :
     tensorSquare big n rb rs off b a k res0 = tensorApply false big n rb rs off b a k a k res0 := by
   unfold tensorSquare tensorApply
@@ -244,7 +245,7 @@ example : tensorSquare false 2 4 2 4 4 [[[1, -2], [3, 0]], [[2, 1], [-1, 1]]] 8 
 /-- **the accumulate variant adds exactly the product** (ranks 1 and 2): `glwe_tensor_apply_add_assign` leaves in
 every column the previous content plus (wrapping, limb-wise — `vec_znx_add_assign`) the column that
 `glwe_tensor_apply` computes; `zs` is whatever the non-accumulating call finds in its output (it is overwritten). -/
-theorem tensorApply_acc_eq_add (big : Bool) (n rb rs off b : Nat) (a : List Col) (ka : Nat) (x : List Col) (kx : Nat)
+theorem tensorApply_acc_eq_add_ranks12 (big : Bool) (n rb rs off b : Nat) (a : List Col) (ka : Nat) (x : List Col) (kx : Nat)
     (res0 zs : List Col) (ha : a.length = 2 ∨ a.length = 3)
     (hr : res0.length = a.length * (a.length + 1) / 2) (hz : zs.length = a.length * (a.length + 1) / 2)
     (hshape : ∀ r ∈ res0, ColShape n rs r) :
@@ -1306,10 +1307,52 @@ example (s : List Poly) : ∃ res, mulConst false false 1 4 2 4 4 ((([[3], [0]] 
     (by decide) (by decide) (by decide) s
   exact ⟨res, h1, h2⟩
 
-/-
-NOT PROVED (checked by correspondence on every generated case, see docs/C05.md):
-* `tensorSquare_eq_tensorApply` and `tensorApply_acc_eq_add` for ranks ≥ 3 (the property's quantifier is rank 1..2;
-  the loops are unfolded per rank, the column arithmetic `col_square` / `col_acc` is rank independent);
--/
+/-! ## The two model-level laws for every rank -/
+
+/-- the normalised convolutions always return (C08 termination), radices `≥ 1` -/
+theorem cnvNorm_total (big128 : Bool) (n rb rs b dft hi : Nat) (lo : Int) (x y : Col) (hrb : 1 ≤ rb) (hb : 1 ≤ b) :
+    ∃ c, cnvNorm big128 n rb rs b dft hi lo x y = some c := by
+  unfold cnvNorm bigNormalizeOff
+  cases big128 with
+  | true => exact NormL.bigNormalizeCol128?_exists rb rs lo _ b n hb hrb
+  | false => exact NormL.normalizeCol?_exists rb rs lo _ b n hb hrb
+
+example : ∃ c, cnvNorm false 1 4 2 4 3 0 0 [[3], [5]] [[2], [1]] = some c := cnvNorm_total false 1 4 2 4 3 0 0 _ _ (by decide) (by decide)
+
+/-- **squaring = multiplying a ciphertext by itself, EVERY rank** (radices `≥ 1`): `glwe_tensor_square_apply(a)` and `glwe_tensor_apply(a, a)`
+return the same tensor bit for bit, for every number of columns, operand, precision, offset, radix pair, accumulator type and prior content.
+Proof: both loops are folds of column updates (`Lemmas/TensorCols.lean`), the content of a column is the fold of the updates that hit it, the
+column index is injective (`cix_inj`), and per column `(−dᵢ − dⱼ) + p = (p − dᵢ) − dⱼ` in wrapping arithmetic (`col_square`). -/
+theorem tensorSquare_eq_tensorApply (big : Bool) (n rb rs off b : Nat) (a : List Col) (k : Nat) (res0 : List Col)
+    (hrb : 1 ≤ rb) (hb : 1 ≤ b) :
+    tensorSquare big n rb rs off b a k res0 = tensorApply false big n rb rs off b a k a k res0 := by
+  unfold tensorSquare tensorApply
+  simp only [Nat.two_mul]
+  exact square_eq_apply_all n a.length rs _ _ res0
+    (fun i _ => cnvNorm_total _ _ _ _ _ _ _ _ _ _ hrb hb) (fun i j _ _ => cnvNorm_total _ _ _ _ _ _ _ _ _ _ hrb hb)
+    (fun i d hd => cnvNorm_shape _ _ _ _ _ _ _ _ _ _ _ hd) (fun i j p hp => cnvNorm_shape _ _ _ _ _ _ _ _ _ _ _ hp)
+
+/-- rank 3 (four columns, ten tensor columns) -/
+example : tensorSquare false 1 4 2 4 4 [[[1], [0]], [[2], [1]], [[0], [3]], [[1], [1]]] 8 (zeroCols 1 10 2)
+    = tensorApply false false 1 4 2 4 4 [[[1], [0]], [[2], [1]], [[0], [3]], [[1], [1]]] 8 [[[1], [0]], [[2], [1]], [[0], [3]], [[1], [1]]] 8 (zeroCols 1 10 2) :=
+  tensorSquare_eq_tensorApply false 1 4 2 4 4 _ 8 _ (by decide) (by decide)
+
+/-- **the accumulate variant adds exactly the product, EVERY rank**: column index onto `[0, cols(cols+1)/2)` (`cix_surj`), per column
+`((r − dᵢ) − dⱼ) + p = r + ((−dᵢ − dⱼ) + p)` (`col_acc`). -/
+theorem tensorApply_acc_eq_add (big : Bool) (n rb rs off b : Nat) (a : List Col) (ka : Nat) (x : List Col) (kx : Nat)
+    (res0 zs : List Col) (hrb : 1 ≤ rb) (hb : 1 ≤ b)
+    (hr : res0.length = (a.length + 1) * a.length / 2) (hz : zs.length = (a.length + 1) * a.length / 2)
+    (hshape : ∀ r ∈ res0, ColShape n rs r) :
+    tensorApply true big n rb rs off b a ka x kx res0
+      = (tensorApply false big n rb rs off b a ka x kx zs).map (fun pr => List.zipWith (vecAddAssignW w64) res0 pr) := by
+  unfold tensorApply
+  exact acc_eq_add_all n a.length rs _ _ res0 zs hr hz hshape
+    (fun i _ => cnvNorm_total _ _ _ _ _ _ _ _ _ _ hrb hb) (fun i j _ _ => cnvNorm_total _ _ _ _ _ _ _ _ _ _ hrb hb)
+    (fun i d hd => cnvNorm_shape _ _ _ _ _ _ _ _ _ _ _ hd) (fun i j p hp => cnvNorm_shape _ _ _ _ _ _ _ _ _ _ _ hp)
+
+example : tensorApply true false 1 4 2 4 4 [[[1], [0]], [[2], [1]], [[0], [3]], [[1], [1]]] 8 [[[1], [0]], [[2], [1]], [[0], [3]], [[1], [1]]] 8 (zeroCols 1 10 2)
+    = (tensorApply false false 1 4 2 4 4 [[[1], [0]], [[2], [1]], [[0], [3]], [[1], [1]]] 8 [[[1], [0]], [[2], [1]], [[0], [3]], [[1], [1]]] 8 (zeroCols 1 10 2)).map
+        (fun pr => List.zipWith (vecAddAssignW w64) (zeroCols 1 10 2) pr) :=
+  tensorApply_acc_eq_add false 1 4 2 4 4 _ 8 _ 8 _ _ (by decide) (by decide) (by decide) (by decide) (by unfold ColShape; decide)
 
 end C05
